@@ -373,6 +373,17 @@ def main():
     if req['mode'] == 'random':
         print(json.dumps({'results': random_runs(req['cfg'], req['seeds'], req.get('max_len', 40))}))
         return
+    if req['mode'] == 'multi':        # several random jobs in one process
+        res = []
+        for j in req['jobs']:
+            runs = random_runs(j['cfg'], j['seeds'], j.get('max_len', 40))
+            if not j.get('trace', True):
+                for run in runs:
+                    run['trace'] = []
+                    run['epilogue'] = []
+            res.append({'results': runs})
+        print(json.dumps({'results': res}))
+        return
     if req['mode'] == 'run':
         res = [run_schedule(j['cfg'], j['schedule'], j.get('epilogue', True), j.get('trace', True))
                for j in req['jobs']]
